@@ -30,6 +30,8 @@ def part_data(pdata, file_abs):
         d['uses'] = uses[0] if (len(uses) == 1 and pdata.get('uses_as_str')) else uses
     if pdata.get('main_part'):
         d['main_part'] = True
+    elif pdata.get('main_part') is False:
+        d['main_part'] = False
     order = pdata.get('key_order')
     vals = pdata.get('values', {})
     keys = order if order else list(vals)
